@@ -46,6 +46,7 @@ func propIdx(p string) int {
 }
 
 var devNull *os.File
+var runners int
 
 func init() {
 	fastlog.DefaultIOWriter = io.Discard
@@ -299,6 +300,14 @@ func acceptCmp(impl, model string) bool { return model == "accept" }
 
 func newRunner(c *core.Ctx, fresh bool, class string) *runner {
 	r := &runner{c: c, fresh: fresh, class: class, V: startV(), clog: clogged}
+	// every fourth history runs with the session logger at debug level (output discarded): every log line of Parse,
+	// the tables, purge and notify is formatted, so a panicking log call is seen; the others run with logging disabled
+	runners++
+	if runners%4 == 1 {
+		packet.Logger.SetLevel(fastlog.LevelDebug)
+	} else {
+		packet.Logger.Disable()
+	}
 	if fresh {
 		r.s, r.conn = freshSession()
 	} else {
